@@ -367,10 +367,16 @@ func c02PrintedPaths(root string, cfg wrConfig, before, after map[string]fileSta
 		seen[d.Path] = true
 		lex := resolvePrinted(root, filepath.Join(root, cfg.Cwd), d.Path)
 		phys, ok := resolveInTree(before, root, cfg.Cwd, d.Path)
-		_, inBefore := before[lex]
-		_, inAfter := after[lex]
+		// the lexical reading, with the directory links on its way followed as well (c02_links.go:
+		// "cat/linked/PLIST" with cat/linked -> p0 names cat/p0/PLIST under both readings)
+		lexPhys := lex
+		if lp, lok := resolveInTree(before, root, ".", lex); lok && !strings.HasPrefix(lex, "..") && !strings.HasPrefix(lex, "<outside>") {
+			lexPhys = lp
+		}
+		_, inBefore := before[lexPhys]
+		_, inAfter := after[lexPhys]
 		switch {
-		case ok && phys == lex:
+		case ok && phys == lexPhys:
 		case !ok && !inBefore && !inAfter:
 			ps = append(ps, c02Problem{"C02/autofix-line-names-nonexistent-file/" + fileClass(lex),
 				fmt.Sprintf("the AUTOFIX line %q names %s, which exists neither before nor after the run", d.Raw, lex), lex})
